@@ -1,3 +1,4 @@
+use super::taken_slice::TakenSlice;
 use crate::{
     iter::{
         atomic_iter::{AtomicIter, AtomicIterWithInitialLen},
@@ -67,8 +68,8 @@ impl<T: Send + Sync> ConIterOfVec<T> {
         let len = end_idx - begin_idx;
 
         let ptr = (vec.as_ptr() as *mut T).add(begin_idx);
-        let vec = Vec::from_raw_parts(ptr, len, 0);
-        vec.into_iter()
+        // the iterator owns exactly these `len` elements, which are reserved for the caller
+        TakenSlice::new(ptr, len)
     }
 
     unsafe fn split_off_right(&self, left_len: usize) -> Vec<T> {
